@@ -14,27 +14,27 @@ import (
 )
 
 const listedIP = "10.0.0.1"
+const listedIP6 = "2001:db8::1"
 
-func adminList(k int) []string {
-	switch k {
-	case 0:
-		return nil
-	case 1:
-		return []string{listedIP}
-	default:
-		return []string{"192.168.0.9", listedIP, "172.16.0.3"}
-	}
-}
+// administrator lists: none, one IPv4 address, several, and a list with an IPv6 address
+var adminLists = [][]string{nil, {listedIP}, {"192.168.0.9", listedIP, "172.16.0.3"}, {listedIP6, listedIP}}
 
-func sourceIP(k int) string {
-	switch k {
-	case 0:
-		return ""
-	case 1:
-		return listedIP
-	default:
-		return "10.0.0.2"
+func adminList(k int) []string { return adminLists[k] }
+
+// source addresses: absent, the listed ones, and neighbours of the listed ones (same /24, same /64,
+// same /32) that are not on any list
+var sourceIPs = []string{"", listedIP, "10.0.0.2", listedIP6, "2001:db8::2", "2001:db8:ffff::1"}
+
+func sourceIP(k int) string { return sourceIPs[k] }
+
+// ipIsListed: the source address is literally one of the configured administrator addresses.
+func ipIsListed(al, ip int) bool {
+	for _, a := range adminLists[al] {
+		if sourceIPs[ip] != "" && a == sourceIPs[ip] {
+			return true
+		}
 	}
+	return false
 }
 
 func prefixIs(d []byte, a, b, c, e byte) bool {
@@ -55,14 +55,14 @@ var domLens = []int{4, 32, 33}
 // RulesOnSign: the generic-sign rule for every domain, source address and administrator list.
 func RulesOnSign() {
 	ctx := context.Background()
-	al := vsym.Choose("adminlist", 3)
-	ip := vsym.Choose("ip", 3)
+	al := vsym.Choose("adminlist", len(adminLists))
+	ip := vsym.Choose("ip", len(sourceIPs))
 	svc := hc.NewRules(ctx, vsym.TempDir("A"), adminList(al)...)
 	dom := vsym.Bytes("dom", domLens[vsym.Choose("domlen", len(domLens))])
 	res := svc.OnSign(ctx, &rules.ReqMetadata{Account: "W/a", PubKey: hc.KeyA[:], Client: "c", IP: sourceIP(ip)},
 		&rules.SignData{Domain: dom, Data: hc.Root})
 	vsym.Out("res", int(res))
-	ipListed := ip == 1 && al != 0
+	ipListed := ipIsListed(al, ip)
 	if res == rules.APPROVED {
 		vsym.Reach("approved")
 		vsym.Assert("G1-approved-only-if-allowed", allowed(dom, ipListed))
@@ -78,11 +78,11 @@ func RulesOnSign() {
 func signerGeneric(n int, multi bool) {
 	ctx := context.Background()
 	log := &stubs.Log{}
-	al := vsym.Choose("adminlist", 3)
-	ip := vsym.Choose("ip", 3)
+	al := vsym.Choose("adminlist", len(adminLists))
+	ip := vsym.Choose("ip", len(sourceIPs))
 	in := hc.Start(ctx, vsym.TempDir("A"), log, &hc.Deps{AdminIPs: adminList(al)})
 	creds := &checker.Credentials{Client: "c", RequestID: "r", IP: sourceIP(ip)}
-	ipListed := ip == 1 && al != 0
+	ipListed := ipIsListed(al, ip)
 	var doms [][]byte
 	var data []*rules.SignData
 	names := []string{"W/a", "W/b", "W/c"}[:n]
